@@ -32,7 +32,8 @@ var hyphWords = map[string][]string{
 var plainWords = []string{"ab", "cde", "fghi", "jk", "lmnop", "q", "rst", "uvwx", "yz", "alpha", "beta", "gamma", "delta"}
 
 type dg struct {
-	r     *rand.Rand
+	r      *rand.Rand
+	gotext bool
 	ids   []string
 	nid   int
 	css   []string
@@ -132,14 +133,27 @@ func (g *dg) section() {
 		lang := gen.Pick(r, []string{"en", "fr", "de", "nl"})
 		var p []string
 		for i := 0; i < 3+r.Intn(5); i++ {
-			p = append(p, gen.Pick(r, hyphWords[lang]))
+			w := gen.Pick(r, hyphWords[lang])
+			p = append(p, w)
 			if r.Intn(3) == 0 {
 				p = append(p, gen.Pick(r, plainWords))
 			}
 		}
-		g.body = append(g.body, fmt.Sprintf(`<p lang="%s" class="hy" style="width:%dpx">%s</p>`, lang, 60+10*r.Intn(8), strings.Join(p, " ")))
+		cls := "hy"
+		if g.gotext {
+			// go-text engine + hyphens:auto panics in text.(*FontConfigurationGotext).splitFirstLine (slice
+			// bounds out of range) on most of these paragraphs: a crash, C01's domain (witness
+			// findings/C15/crash-gotext-hyphens-auto.json); the go-text documents hyphenate manually
+			cls = "hm"
+			for i := range p {
+				if len(p[i]) > 8 {
+					p[i] = p[i][:4] + "\u00ad" + p[i][4:8] + "\u00ad" + p[i][8:]
+				}
+			}
+		}
+		g.body = append(g.body, fmt.Sprintf(`<p lang="%s" class="%s" style="width:%dpx">%s</p>`, lang, cls, 60+10*r.Intn(8), strings.Join(p, " ")))
 	case 8: // images
-		src := gen.Pick(r, []string{pngDot, svgData, "mem://doc/pic.svg", "mem://doc/missing.png"})
+		src := gen.Pick(r, []string{pngDot, svgData, "mem://doc/pic.svg", "mem://doc/pic.svg", "mem://doc/missing.png"})
 		g.body = append(g.body, fmt.Sprintf(`<p>%s <img src="%s" style="width:%dpx; height:%dpx" id="%s"> %s</p>`, g.words(1), src, 5+5*r.Intn(5), 5+5*r.Intn(4), g.id(), g.words(1)))
 		if r.Intn(2) == 0 {
 			g.body = append(g.body, fmt.Sprintf(`<div style="background: url(%s) %s; height: 20px">%s</div>`, src, gen.Pick(r, []string{"repeat", "no-repeat", "space", "round"}), g.words(1)))
@@ -183,7 +197,7 @@ func (g *dg) section() {
 
 // biasedDoc builds one document.
 func biasedDoc(r *rand.Rand) gen.Doc {
-	g := &dg{r: r}
+	g := &dg{r: r, gotext: r.Intn(4) == 0}
 	pw := 150 + 10*r.Intn(16)
 	ph := 100 + 10*r.Intn(12)
 	font := gen.Pick(r, []string{"10px/1.2 Ahem", "8px/1 Ahem", "10px/1.5 weasyprint", "12px Ahem", "10px ff1, Ahem"})
@@ -201,18 +215,28 @@ func biasedDoc(r *rand.Rand) gen.Doc {
 		`.run { position: running(rn) }`,
 		`.tc::after { content: " p." target-counter(attr(href), page) " " target-text(attr(href), content) }`,
 		`.toc { margin: 0 } .fl { border: 1px solid; margin: 1px }`,
-		`@counter-style cs1 { system: cyclic; symbols: "x" "y" "z"; suffix: ") " }`,
-		`@counter-style cs2 { system: additive; additive-symbols: 10 "X", 5 "V", 1 "I"; range: 1 39 }`,
-		`@counter-style cs3 { system: extends decimal; prefix: "["; suffix: "] "; pad: 3 "0" }`,
-		`@counter-style cs4 { system: alphabetic; symbols: "a" "b" "c" }`,
 		`.cs1 { list-style: cs1 } .cs2 { list-style: cs2 inside } .cs3 { list-style: cs3 } .cs4 { list-style: cs4 } .roman { list-style: upper-roman } .greek { list-style: lower-greek }`,
-		`.hy { hyphens: auto; text-align: justify }`,
+		`.hy { hyphens: auto; text-align: justify } .hm { hyphens: manual; text-align: justify }`,
 		`.gc1::before { content: counter(c) ". "; counter-increment: c } .gc1::after { content: " [" attr(title) "]" }`,
 		`.gc2::before { content: open-quote } .gc2::after { content: close-quote } .gc2 { quotes: "<" ">" }`,
 		`.gc3::first-letter { font-size: 14px } .gc3::before { content: url(`+pngDot+`) }`,
 		`.q::marker { content: "* " } .q { display: list-item; margin-left: 15px }`,
 		`td { border: 1px solid; padding: 1px } a { color: blue }`,
 	)
+	// every document defines its own subset of the counter styles cs1..cs4, with its own symbols: a
+	// definition leaking from one render into the next one changes the markers of the other document
+	// (an undefined style falls back to decimal)
+	csDefs := []string{
+		`@counter-style cs1 { system: cyclic; symbols: ` + gen.Pick(r, []string{`"x" "y" "z"`, `"+" "-"`, `"o"`}) + `; suffix: ") " }`,
+		`@counter-style cs2 { system: additive; additive-symbols: ` + gen.Pick(r, []string{`10 "X", 5 "V", 1 "I"`, `5 "f", 1 "i"`}) + `; range: 1 39 }`,
+		`@counter-style cs3 { system: extends decimal; prefix: "` + gen.Pick(r, []string{"[", "(", "<"}) + `"; suffix: "] "; pad: ` + fmt.Sprint(1+r.Intn(3)) + ` "0" }`,
+		`@counter-style cs4 { system: alphabetic; symbols: ` + gen.Pick(r, []string{`"a" "b" "c"`, `"p" "q"`}) + ` }`,
+	}
+	for _, c := range csDefs {
+		if r.Intn(4) != 0 {
+			g.css = append(g.css, c)
+		}
+	}
 	if r.Intn(3) == 0 {
 		g.css = append(g.css, `@font-face { font-family: ff1; src: `+gen.Pick(r, []string{"local(Ahem)", "url(mem://doc/missing.ttf)", "url(mem://doc/missing.ttf) format(\"truetype\"), local(weasyprint)"})+` }`)
 	}
@@ -227,12 +251,12 @@ func biasedDoc(r *rand.Rand) gen.Doc {
 	if r.Intn(3) == 0 {
 		meta = `<title>` + g.words(2) + `</title><meta name="author" content="A"><meta name="keywords" content="k1, k2"><meta name="dcterms.created" content="2020-01-02T03:04:05Z">`
 	}
-	if r.Intn(6) == 0 {
+	if r.Intn(3) == 0 {
 		meta += `<link rel="stylesheet" href="mem://doc/extra.css">`
 	}
 	html := `<!DOCTYPE html><html lang="` + gen.Pick(r, []string{"en", "fr", "de"}) + `"><head>` + meta + `<style>` + strings.Join(g.css, "\n") + `</style></head><body>` + strings.Join(g.body, "\n") + `</body></html>`
 	d := gen.Doc{HTML: html, Hints: r.Intn(3) == 0}
-	if r.Intn(4) == 0 {
+	if g.gotext {
 		d.Engine = "gotext"
 	}
 	if r.Intn(5) == 0 {
@@ -242,8 +266,10 @@ func biasedDoc(r *rand.Rand) gen.Doc {
 		d.Zoom = gen.Pick(r, []float32{0.5, 2.5})
 	}
 	d.Files = map[string]string{
-		"extra.css": `p { letter-spacing: 1px } #k37 { color: red }`,
-		"pic.svg":   `<svg xmlns="http://www.w3.org/2000/svg" width="8" height="8"><rect width="4" height="4" fill="green"/><text x="1" y="7" font-family="Ahem" font-size="4">ab</text></svg>`,
+		// same URLs in every document, different contents: a process-wide cache keyed by URL would leak
+		"extra.css": fmt.Sprintf(`p { letter-spacing: %dpx } #k37 { color: %s }`, r.Intn(3), gen.Pick(r, []string{"red", "green", "blue"})),
+		"pic.svg":   fmt.Sprintf(`<svg xmlns="http://www.w3.org/2000/svg" width="%d" height="8"><rect width="4" height="%d" fill="%s"/><text x="1" y="7" font-family="Ahem" font-size="4">ab</text></svg>`, 6+r.Intn(6), 2+r.Intn(5), gen.Pick(r, []string{"green", "red", "#123456"})),
 	}
 	return d
 }
+
